@@ -441,11 +441,11 @@ func c08Header(tier string, c c08Case, salt int64, res *core.Result) {
 
 func init() {
 	core.Register(&core.Prop{
-		ID:    "C08",
-		Level: "exploration",
-		Rule:  "parser: per unit ALL values of 1..4 digits in every zero-padded spelling (6 x 11110), boundary grid for digit counts 1..8 (0, 1, 10^k, 10^k-1, ...), overflow thresholds +-2, over-long strings, ~640 malformed strings (fixed list + seeded mutations), seeded random conformant/over-long values (quick 4x10^5, thorough 10^7) - each checked against a big.Int reference; end to end: 12 caller timeouts (already expired .. 10^4 h, and none) x 4 RPC kinds, handler deadline must satisfy D-1ms <= Dh <= max(D+transit, t_entry+1ms) on recorded timestamps; header semantics: 3 key spellings x 27 values x 4 RPC kinds from a scripted peer. distinct_nontrivial counts distinct parser inputs of the enumerated families plus distinct case descriptors of the others.",
-		Plan:  func(tier string, seed int64) int { return len(c08List(tier)) },
-		Run:   c08Run,
+		ID:         "C08",
+		Level:      "exploration",
+		Rule:       "parser: per unit ALL values of 1..4 digits in every zero-padded spelling (6 x 11110), boundary grid for digit counts 1..8 (0, 1, 10^k, 10^k-1, ...), overflow thresholds +-2, over-long strings, ~640 malformed strings (fixed list + seeded mutations), seeded random conformant/over-long values (quick 4x10^5, thorough 10^7) - each checked against a big.Int reference; end to end: 12 caller timeouts (already expired .. 10^4 h, and none) x 4 RPC kinds, handler deadline must satisfy D-1ms <= Dh <= max(D+transit, t_entry+1ms) on recorded timestamps; header semantics: 3 key spellings x 27 values x 4 RPC kinds from a scripted peer. distinct_nontrivial counts distinct parser inputs of the enumerated families plus distinct case descriptors of the others.",
+		Plan:       func(tier string, seed int64) int { return len(c08List(tier)) },
+		Run:        c08Run,
 		Exhaustive: func(string) bool { return false },
 		RequiredStats: func(string) []string {
 			return []string{"parser_inputs_conformant", "parser_inputs_overlong", "parser_inputs_malformed", "e2e_handler_deadlines_observed", "header_requests_conformant", "header_requests_malformed"}
